@@ -1,7 +1,7 @@
 ---------------------------- MODULE ClientIPGen ----------------------------
 (* X03 part A: writes every case of ClientIP!Space as one ndjson line (the record of the case, its number and the  *)
 (* tag fl = "the first-line-only reading of the code differs from the property here", see clause A6).              *)
-EXTENDS ClientIP, Json, IOUtils, SequencesExt
+EXTENDS ClientIPSpace, Json, SequencesExt
 ASSUME LET S == SetToSeq(Space) IN
        ndJsonSerialize(IOEnv.VERIF_OUT,
                        [i \in 1 .. Len(S) |-> [ev |-> "Case", id |-> i, fl |-> FirstLineDiffers(S[i])] @@ S[i]])
